@@ -614,7 +614,8 @@ pub mod fasta {
                 State::Incomplete => partial(self.b(), self.buf_pos.start as int, self.buf_pos.seq_pos@, self.search_pos as int)
                               && self.buf_pos.start < self.b().len() && self.b()[self.buf_pos.start as int] == 62u8
                               && (self.clean() ==> at_end(self.b(), self.search_pos as int) && self.b().len() == self.buf_reader.cap()),
-                State::Positioned => self.filled() && self.buf_pos.seq_pos@.len() == 0 && self.search_pos == self.buf_pos.start
+                State::Positioned => self.filled() && self.buf_pos.seq_pos@.len() == 0
+                              && partial(self.b(), self.buf_pos.start as int, self.buf_pos.seq_pos@, self.search_pos as int)
                               && self.buf_pos.start < self.b().len() && self.b()[self.buf_pos.start as int] == 62u8,
                 State::Finished => self.filled(),
             }
@@ -790,6 +791,16 @@ pub mod fasta {
                 && final(self).buf_reader.errs() == old(self).buf_reader.errs(),
             [C09|fasta.seek.capacity] final(self).buf_reader.cap() == old(self).buf_reader.cap(),
             [C01,C03,C14,C17|fasta.seek.err] r matches Err(e) ==> (e matches Error::Io(x) && final(self).buf_reader.errs() == old(self).buf_reader.errs().push(x)),
+//@at depth=2 kw=return nth=0 expect="return Ok\(\(\)\);"
+            proof {
+                assert(lfs(self.b(), self.buf_pos.start as int, self.buf_pos.start as int) =~= Seq::<int>::empty());
+                assert(spv(self.buf_pos.seq_pos@) =~= Seq::<int>::empty());
+            }
+//@at tail expect="Ok\(\(\)\)"
+        proof {
+            assert(lfs(self.b(), 0, 0) =~= Seq::<int>::empty());
+            assert(spv(self.buf_pos.seq_pos@) =~= Seq::<int>::empty());
+        }
 //@end
 }
 
@@ -1241,6 +1252,177 @@ pub mod fasta {
         reveal(ps_valid);
         assert forall|i: int| 0 <= i < k implies (#[trigger] ps[i]).rwf(b) && ps[i].l().last() < b.len() by { lemma_rwf_prefix(ps[i], b0, b); }
     }
+
+    proof fn lemma_ps_empty(ps: Seq<BufferPosition>, b: Seq<u8>, a: int, f: Seq<u8>, p0: int, open: bool)
+        ensures ps_valid(ps, 0, b, open), ps_lifted(ps, 0, a, f, p0)
+    { reveal(ps_valid); reveal(ps_lifted); }
+    /// one more record (stored at index k, by update or push): the record at the cursor, complete in the window [a, a+|b|) of f
+    proof fn lemma_ps_put(ps: Seq<BufferPosition>, ps2: Seq<BufferPosition>, k: int, bp: BufferPosition, e: int, b: Seq<u8>, a: int, f: Seq<u8>, p0: int, open: bool, lifted: bool)
+        requires ps_valid(ps, k, b, false), 0 <= k < ps2.len(), ps2[k].same_as(&bp),
+                 forall|i: int| 0 <= i < k ==> ps2[i] == ps[i],
+                 0 <= bp.start < b.len(), b[bp.start as int] == 62u8,
+                 (complete(b, bp.start as int, bp.seq_pos@, e) && !open) || (eofrec(b, bp.start as int, bp.seq_pos@, e) && open),
+                 0 <= a, a + b.len() <= f.len(), b == f.subrange(a, a + b.len()),
+                 lifted ==> ps_lifted(ps, k, a, f, p0) && a + bp.start == fa_start(f, p0, k) && (open ==> a + b.len() == f.len()),
+        ensures ps_valid(ps2, k + 1, b, open),
+                lifted ==> ps_lifted(ps2, k + 1, a, f, p0) && fa_start(f, p0, k + 1) == (if open { f.len() as int } else { a + e }),
+    {
+        reveal(ps_valid); reveal(ps_lifted);
+        bp.lemma_rwf(b, e);
+        assert(ps2[k].l() == bp.l());
+        assert(ps2[k].rwf(b));
+        if !open { assert(lfs(b, bp.start as int, e) == lfs(b, bp.start as int, e - 1).push(e - 1)); }
+        if lifted {
+            lemma_rec_lift(f, a, b, bp.start as int, bp.l(), e);
+            if open { lemma_lines_eof(f, a + bp.start, shl(bp.l(), a), a + e); }
+            else { lemma_lines_complete(f, a + bp.start, shl(bp.l(), a), a + e); }
+            assert(fa_start(f, p0, k + 1) == fa_bnd(f, fa_start(f, p0, k)));
+        }
+    }
+
+//@impl_open fasta::Reader::read_record_set_exact
+    spec fn rs_a(&self, o: &Self, rset: &RecordSet, n_records: Option<usize>) -> bool {
+        let k = rset.n();
+        &&& self.wf0() && self.buf_reader.cap() >= 2 && self.filled() && self.f() == o.f() && self.buf_reader.errs() == o.buf_reader.errs()
+        &&& (self.state == State::Positioned || self.state == State::Incomplete || self.state == State::Finished)
+        &&& self.position.byte == self.gpos() && self.buf_pos.start <= self.search_pos <= self.b().len()
+        &&& (self.state != State::Finished ==> self.buf_pos.start < self.b().len() && self.b()[self.buf_pos.start as int] == 62u8 && self.coords()
+                && partial(self.b(), self.buf_pos.start as int, self.buf_pos.seq_pos@, self.search_pos as int))
+        &&& (self.state == State::Positioned ==> self.buf_pos.seq_pos@.len() == 0)
+        &&& (self.state == State::Incomplete ==> (self.clean() ==> at_end(self.b(), self.search_pos as int) && self.b().len() == self.buf_reader.cap()))
+        &&& (n_records matches Some(m) ==> k <= m)
+        &&& k <= rset.positions@.len()
+        &&& (self.state == State::Finished ==> k >= 1)
+    }
+    spec fn rs_b(&self, rset: &RecordSet) -> bool { ps_valid(rset.positions@, rset.n(), self.b(), self.state == State::Finished) }
+    spec fn rs_c(&self, o: &Self, rset: &RecordSet) -> bool {
+        o.clean() ==> {
+            &&& ps_lifted(rset.positions@, rset.n(), self.base(), self.f(), o.cursor())
+            &&& (self.state != State::Finished ==> self.gpos() == fa_start(self.f(), o.cursor(), rset.n()))
+            &&& (self.state == State::Finished ==> fa_start(self.f(), o.cursor(), rset.n()) == self.f().len())
+        }
+    }
+
+//@fn fasta::Reader::read_record_set_exact ret=r tags=C04,C03,C05,C06,C09,C14
+//@spec
+        requires
+            old(self).wf(), old(rset).wf(),
+            n_records != Some(0usize),
+        ensures
+            [C03,C04,C05,C06|fasta.read_set.wf] final(self).wf() && final(self).f() == old(self).f() && final(rset).wf(),
+            [C03,C04|fasta.read_set.ok] r matches Some(Ok(_)) ==> final(rset).n() >= 1 && final(self).buf_reader.errs() == old(self).buf_reader.errs()
+                && old(self).state != State::Finished && final(rset).buffer@ == final(self).b()
+                && (n_records matches Some(m) ==> final(rset).n() <= m)
+                && (old(self).clean() ==> ({
+                    let (ff, p0, k) = (old(self).f(), old(self).cursor(), final(rset).n());
+                    &&& forall|i: int| 0 <= i < k ==> final(self).base() + (#[trigger] final(rset).positions@[i]).start == fa_start(ff, p0, i)
+                            && shl(final(rset).positions@[i].l(), final(self).base()) == fa_lines(ff, fa_start(ff, p0, i))
+                    &&& (final(self).state != State::Finished ==> final(self).cursor() == fa_start(ff, p0, k))
+                    &&& (final(self).state == State::Finished ==> fa_start(ff, p0, k) == ff.len())
+                    &&& (n_records matches Some(m) ==> k == m || final(self).state == State::Finished)
+                })),
+            [C03,C05|fasta.read_set.position] r matches Some(Ok(_)) && old(self).clean() && final(self).state != State::Finished ==>
+                final(self).position.byte == fa_start(old(self).f(), old(self).cursor(), final(rset).n())
+                && final(self).position.line == true_line(old(self).f(), final(self).position.byte as int),
+            [C03,C04,C06|fasta.read_set.none] r is None ==> final(self).buf_reader.errs() == old(self).buf_reader.errs() && final(self).state == State::Finished
+                && (old(self).state == State::Finished || (old(self).state == State::New
+                    && (old(self).fresh() ==> first_nonblank(old(self).f(), 0) == old(self).f().len()))),
+            [C14|fasta.read_set.err_io] r matches Some(Err(e)) ==> (e matches Error::Io(x) ==> final(self).buf_reader.errs() == old(self).buf_reader.errs().push(x)),
+            [C09|fasta.read_set.err_limit] r matches Some(Err(e)) ==> (e is BufferLimit ==> final(self).buf_reader.errs() == old(self).buf_reader.errs()),
+            [C03,C17|fasta.read_set.err_start] r matches Some(Err(e)) ==> (e matches Error::InvalidStart { line, found } ==> old(self).state == State::New
+                        && ({ let s0 = first_nonblank(old(self).f(), 0);
+                            s0 < old(self).f().len() && old(self).f()[s0] != 62u8 && found == old(self).f()[s0] && line == true_line(old(self).f(), s0) })),
+            [C09|fasta.read_set.capacity_monotone] final(self).buf_reader.cap() >= old(self).buf_reader.cap(),
+//@body_start
+        proof {
+            lemma_count_lf_mono(self.f(), 0, self.position.byte as int);
+            if self.state == State::Parsing {
+                let (ff, a, bb, st, e) = (self.f(), self.base(), self.b(), self.buf_pos.start as int, self.search_pos as int);
+                lemma_lfs_bounds(bb, st, e);
+                lemma_lfs_window(ff, a, bb, st, e);
+                lemma_count_lfs(ff, a + st, a + e);
+                lemma_count_lf_mono(ff, 0, a + e);
+                assert(spv(self.buf_pos.seq_pos@).len() == self.buf_pos.seq_pos@.len());
+                lemma_rec_lift(ff, a, bb, st, spv(self.buf_pos.seq_pos@), e);
+                lemma_lines_complete(ff, a + st, shl(spv(self.buf_pos.seq_pos@), a), a + e);
+            }
+        }
+//@at depth=1 kw=let nth=0 expect="let mut \w+ = true;"
+        proof {
+            lemma_ps_empty(rset.positions@, self.b(), self.base(), self.f(), old(self).cursor(), self.state == State::Finished);
+            if self.state == State::Positioned {
+                let (bb, st, sp) = (self.b(), self.buf_pos.start as int, self.search_pos as int);
+                assert(lfs(bb, st, st) =~= Seq::<int>::empty());
+                assert(lfs(bb, st, st + 1) =~= Seq::<int>::empty());
+                assert(spv(self.buf_pos.seq_pos@) =~= Seq::<int>::empty());
+            }
+        }
+//@loop 0 kw=while
+            invariant_except_break
+                n_records matches Some(m) ==> rset.n() < m,
+                self.state == State::Incomplete && rset.n() > 0 ==> !is_new,
+            invariant
+                [C03,C04,C05,C06|fasta.read_set.inv.state] self.rs_a(old(self), rset, n_records),
+                [C03,C04,C06|fasta.read_set.inv.positions_valid] self.rs_b(rset),
+                [C03,C04|fasta.read_set.inv.records_are_the_next_k] self.rs_c(old(self), rset),
+                n_records != Some(0usize), old(self).state != State::Finished,
+                [C09|fasta.read_set.inv.capacity] self.buf_reader.cap() >= old(self).buf_reader.cap(),
+            ensures
+                [C03,C04|fasta.read_set.loop_exit_nonempty] rset.n() >= 1,
+                [C03,C04|fasta.read_set.loop_exit_exact_or_end] n_records matches Some(m) ==> rset.n() == m || self.state == State::Finished,
+            decreases
+                self.f().len() + 2 - self.gpos(),
+                (if self.state == State::Incomplete { 0int } else { 1int }),
+//@at depth=2 kw=if nth=0 expect="if self\.state == State::Incomplete"
+            let ghost b0 = self.b();
+            let ghost k0 = rset.n();
+            let ghost ps0 = rset.positions@;
+            proof { lemma_count_lf_mono(self.f(), 0, self.position.byte as int); }
+//@at depth=2 kw=if nth=1 expect="if let Some\(\w+\) = rset\.positions\.get_mut\("
+            let ghost open = self.state == State::Finished;
+            proof {
+                if k0 > 0 {
+                    assert(self.b().subrange(0, b0.len() as int) =~= b0);
+                    lemma_ps_prefix(ps0, k0, b0, self.b());
+                } else {
+                    lemma_ps_empty(ps0, self.b(), self.base(), self.f(), old(self).cursor(), false);
+                }
+            }
+//@at depth=2 kw=rset nth=0 expect="rset\.npos \+= 1;"
+            proof {
+                let (ff, a, bb, st, e) = (self.f(), self.base(), self.b(), self.buf_pos.start as int, self.search_pos as int);
+                assert(k0 < rset.positions@.len());
+                assert(rset.positions@.len() <= usize::MAX) by { vstd::std_specs::vec::axiom_spec_len(&rset.positions); }
+                lemma_ps_put(ps0, rset.positions@, k0, self.buf_pos, e, bb, a, ff, old(self).cursor(), open, old(self).clean());
+                lemma_lfs_bounds(bb, st, e);
+                lemma_count_lf_mono(ff, 0, self.position.byte as int);
+                assert(spv(self.buf_pos.seq_pos@).len() == self.buf_pos.seq_pos@.len());
+                assert(lfs(bb, e, e) =~= Seq::<int>::empty());
+                if !open {
+                    lemma_lfs_window(ff, a, bb, st, e);
+                    lemma_count_lfs(ff, a + st, a + e);
+                    lemma_count_lf_mono(ff, 0, a + e);
+                    assert(spv(self.buf_pos.seq_pos@).len() == self.buf_pos.seq_pos@.len());
+                }
+            }
+//@at depth=2 kw=if nth=2 expect="if let Some\(\w+\) = n_records"
+            proof {
+                assert(spv(self.buf_pos.seq_pos@) =~= Seq::<int>::empty());
+                assert(lfs(self.b(), self.buf_pos.start as int, self.buf_pos.start as int) =~= Seq::<int>::empty());
+            }
+//@at depth=1 kw=rset nth=1 expect="rset\.\w+\.clear\(\);"
+        proof { broadcast use axiom_ref_items_slice; reveal(ps_valid); reveal(ps_lifted); }
+//@end
+
+//@fn fasta::Reader::read_record_set ret=r tags=C04,C09
+//@spec
+        requires
+            old(self).wf(), old(rset).wf(),
+        ensures
+            [C04|fasta.read_record_set.is_exact_none] final(self).wf() && final(rset).wf() && final(self).f() == old(self).f()
+                && (r matches Some(Ok(_)) ==> final(rset).n() >= 1),
+//@end
+}
 
     } // verus!
 }
